@@ -544,6 +544,30 @@ theorem C19_grpc_scenario_vars (scn : String) (s : VarState) (calls : List VCall
   rw [heq, run_panicked_iff]
   rfl
 
+/-- … and the instance goes on with the next ammo: an instance of the http/scenario gun (or of the gRPC scenario gun) that
+shoots ANY sequence of such scenarios — whatever every response stores, whatever every preprocessor reads, whatever the
+shared iterator hands out from shot to shot — takes all its ammo, finishes, and the aggregator receives exactly the
+samples of all shots. -/
+theorem C19_vars_instance (scn : String)
+    (httpShots : List (VarState × List VStep)) (grpcShots : List (VarState × List VCall)) :
+    let cap := some Gen.RespGuard.maxRandStringLength
+    let rs := httpShots.map (fun p => shootScenarioV cap false scn p.1 p.2) ++
+      grpcShots.map (fun p => shootGrpcScenarioV cap scn p.1 p.2)
+    (instanceRun rs).result = .finished ∧ (instanceRun rs).shotsTaken = httpShots.length + grpcShots.length ∧
+      (instanceRun rs).samples = (rs.map (·.reports)).flatten := by
+  intro cap rs
+  have h : ∀ r ∈ rs, r.panicked = false := by
+    intro r hr
+    rcases List.mem_append.mp hr with h1 | h1
+    · obtain ⟨p, _, rfl⟩ := List.mem_map.mp h1
+      exact (C19_scenario_vars false scn p.1 p.2).2.2.2 rfl
+    · obtain ⟨p, _, rfl⟩ := List.mem_map.mp h1
+      exact (C19_grpc_scenario_vars scn p.1 p.2).2
+  have := instanceRun_all rs h
+  refine ⟨this.1, ?_, this.2.2⟩
+  rw [this.2.1]
+  simp [rs]
+
 /-! ## the defects of the tree as found (what the two fixes repair) -/
 
 /-- `substr(5)` on a 3-byte header value: the closure as found slices `in[3:5]` and panics. -/
